@@ -560,6 +560,18 @@ class Flow:
         def f(a, at, nargs):
             if at.head == 'guard' and tab.arg_eq(nargs[0], test_rf):
                 return nargs[1] if truth else nargs[2]
+            if at.head == 'guard' and isinstance(nargs[0], RF) and nargs[0].single_atom() is not None:
+                # the known test is one operand of the selection's condition: `known and rest` / `known or rest`
+                ca = tab.atoms[nargs[0].single_atom()]
+                if ca.head == 'bool' and ca.extra in ('And', 'Or') and any(tab.arg_eq(x, test_rf) for x in ca.args):
+                    rest = [x for x in ca.args if not tab.arg_eq(x, test_rf)]
+                    if ca.extra == 'And' and not truth:
+                        return nargs[2]
+                    if ca.extra == 'Or' and truth:
+                        return nargs[1]
+                    if rest:
+                        c2 = rest[0] if len(rest) == 1 else tab.atom('bool', tuple(rest), extra=ca.extra)
+                        return tab.atom('guard', (c2, nargs[1], nargs[2]))
             return None
         for k in has:
             self.env[k] = tab.rewrite(self.env[k], f)
@@ -842,8 +854,18 @@ class Flow:
             self.bind(s.target, t.atom('elem', (seq, idx_atom)), s, op='for')
         self.loops.append(lp)
         self.ev('loop', s, loop=lp)
+        env_before = None
+        if lp.kind == 'range' and lp.range_args[0].const() == 0 and lp.range_args[2].const() == 1:
+            # inside `for i in range(N)` the body runs only when 0 < N: selections made on that test before the loop
+            # are settled in the body (and only there: the definitions are put back after the loop)
+            env_before = dict(self.env)
+            self.assume(t.atom('cmp', (t.const(0), lp.range_args[1]), extra=('Lt',)), True)
         self.block(s.body)
         self.loops.pop()
+        if env_before is not None:
+            for k_, v_ in env_before.items():
+                if k_ not in body_names and k_ not in tnames and k_ in self.env:
+                    self.env[k_] = v_
         self.havoc(body_names | tnames, after=True)
         if s.orelse:
             self.block(s.orelse)
